@@ -3,6 +3,7 @@ package core
 import (
 	"errors"
 	"fmt"
+	"sort"
 	"strings"
 
 	schema "github.com/jsightapi/jsight-schema-core"
@@ -272,10 +273,11 @@ func (*JApiCore) getPropertiesNames(m map[string]ischema.Node) string {
 		return ""
 	}
 
-	buf := strings.Builder{}
+	// In the order of the names, so that the same document always gives the same message.
+	names := make([]string, 0, len(m))
 	for k := range m {
-		buf.WriteString(k)
-		buf.WriteString(", ")
+		names = append(names, k)
 	}
-	return strings.TrimSuffix(buf.String(), ", ")
+	sort.Strings(names)
+	return strings.Join(names, ", ")
 }
